@@ -19,6 +19,10 @@ fn main() {
     let mut index = String::from("pub const GRAMMARS: &[&str] = &[\n");
     let mut mods = String::new();
     let mut dispatch = String::from("pub fn run_generated(k: usize, lexer: &dyn ::lrpar::NonStreamingLexer<::lrlex::DefaultLexerTypes<u32>>, tag: u64) -> (Option<usize>, Vec<::lrpar::LexParseError<u32, ::lrlex::DefaultLexerTypes<u32>>>) {\n    match k {\n");
+    // the same grammars in the other three configurations: actions without recovery, generic
+    // parse tree with and without recovery
+    let mut dispatch_n = dispatch.replace("run_generated", "run_generated_norecovery");
+    let mut dispatch_t = String::from("pub fn run_generated_tree(k: usize, recover: bool, lexer: &dyn ::lrpar::NonStreamingLexer<::lrlex::DefaultLexerTypes<u32>>) -> (Option<crate::reflr::Tree>, Vec<::lrpar::LexParseError<u32, ::lrlex::DefaultLexerTypes<u32>>>) {\n    match (k, recover) {\n");
     for (k, b) in blocks.iter().enumerate() {
         let (head, body) = b.split_once("%%\n").unwrap();
         let mut y = String::from("%grmtools{yacckind: Grmtools}\n");
@@ -65,11 +69,50 @@ fn main() {
             .show_warnings(false)
             .build()
             .unwrap();
+        // actions, RecoveryKind::None
+        let modn: &'static str = Box::leak(format!("g{k}n_y").into_boxed_str());
+        let _ = std::fs::remove_file(out.join(format!("g{k}n.y.rs")));
+        CTParserBuilder::<DefaultLexerTypes<u32>>::new()
+            .yacckind(YaccKind::Grmtools)
+            .recoverer(RecoveryKind::None)
+            .grammar_path(&yp)
+            .output_path(out.join(format!("g{k}n.y.rs")))
+            .mod_name(modn)
+            .error_on_conflicts(false)
+            .warnings_are_errors(false)
+            .show_warnings(false)
+            .build()
+            .unwrap();
+        writeln!(mods, "include!(concat!(env!(\"OUT_DIR\"), \"/g{k}n.y.rs\"));").unwrap();
+        writeln!(dispatch_n, "        {k} => g{k}n_y::parse(lexer, tag),").unwrap();
+        // generic parse tree, with and without recovery
+        let tp = out.join(format!("g{k}t.y"));
+        std::fs::write(&tp, b).unwrap();
+        for (suffix, rk, flag) in [("t", RecoveryKind::CPCTPlus, "true"), ("tn", RecoveryKind::None, "false")] {
+            let modt: &'static str = Box::leak(format!("g{k}{suffix}_y").into_boxed_str());
+            let _ = std::fs::remove_file(out.join(format!("g{k}{suffix}.y.rs")));
+            CTParserBuilder::<DefaultLexerTypes<u32>>::new()
+                .yacckind(YaccKind::Original(cfgrammar::yacc::YaccOriginalActionKind::GenericParseTree))
+                .recoverer(rk)
+                .grammar_path(&tp)
+                .output_path(out.join(format!("g{k}{suffix}.y.rs")))
+                .mod_name(modt)
+                .error_on_conflicts(false)
+                .warnings_are_errors(false)
+                .show_warnings(false)
+                .build()
+                .unwrap();
+            writeln!(mods, "include!(concat!(env!(\"OUT_DIR\"), \"/g{k}{suffix}.y.rs\"));").unwrap();
+            writeln!(dispatch_t, "        ({k}, {flag}) => {{ let (t, e) = g{k}{suffix}_y::parse(lexer); (t.map(|t| g{k}{suffix}_y_conv(&t)), e) }}").unwrap();
+            writeln!(mods, "fn g{k}{suffix}_y_conv(n: &g{k}{suffix}_y::Node<::lrlex::DefaultLexeme<u32>, u32>) -> crate::reflr::Tree {{ match n {{ g{k}{suffix}_y::Node::Term {{ lexeme }} => crate::term_of(lexeme), g{k}{suffix}_y::Node::Nonterm {{ ridx, nodes }} => crate::reflr::Tree::Nonterm {{ ridx: ridx.0 as u16, pidx: None, kids: nodes.iter().map(g{k}{suffix}_y_conv).collect() }} }} }}").unwrap();
+        }
         writeln!(index, "    {:?},", b).unwrap();
         writeln!(mods, "include!(concat!(env!(\"OUT_DIR\"), \"/g{k}.y.rs\"));").unwrap();
         writeln!(dispatch, "        {k} => g{k}_y::parse(lexer, tag),").unwrap();
     }
     index.push_str("];\n");
     dispatch.push_str("        _ => unreachable!(),\n    }\n}\n");
-    std::fs::write(out.join("generated.rs"), format!("{mods}\n{index}\n{dispatch}")).unwrap();
+    dispatch_n.push_str("        _ => unreachable!(),\n    }\n}\n");
+    dispatch_t.push_str("        _ => unreachable!(),\n    }\n}\n");
+    std::fs::write(out.join("generated.rs"), format!("{mods}\n{index}\n{dispatch}\n{dispatch_n}\n{dispatch_t}")).unwrap();
 }
